@@ -1,21 +1,20 @@
 #!/bin/bash
-# run_all_seeded.sh [tier]: run every stored seeded change against its property's check; writes seeded/RESULTS.md
-tier="${1:-quick}"
+# run_all_seeded.sh [tier] [parallelism]: run every stored seeded change against its property's check; writes seeded/RESULTS.md
+tier="${1:-quick}"; par="${2:-6}"
 cd /verif
-out=seeded/RESULTS.md
-echo "# Seeded changes vs checks (tier: $tier)" > $out
-echo >> $out
-echo "| seeded change | needs | check result |" >> $out
-echo "|---|---|---|" >> $out
-for d in seeded/C*/m*; do
-  pid=$(basename $(dirname $d))
+tmp=$(mktemp -d /tmp/seedall.XXXXXX)
+one() {
+  d="$1"; tier="$2"; tmp="$3"
+  pid=$(basename $(dirname $d)); key=$(echo $d | tr '/' '_')
   needs=$(python3 -c "import json,sys; print(json.load(open('$d/meta.json')).get('needs','')[:160].replace('|','/').replace('\n',' '))")
-  res=$(tools/run_seeded.sh $pid /verif/$d $tier 2>&1)
+  t=$tier
+  [ -f "$d/tier" ] && t=$(cat $d/tier)
+  res=$(tools/run_seeded.sh $pid /verif/$d $t 2>&1)
   rc=$(echo "$res" | grep -o "exit=[0-9]*" | tail -1)
   v=$(echo "$res" | grep -c "^VIOLATION")
   case "$rc" in
-    exit=1) verdict="caught (VIOLATION x$v, natively confirmed)";;
-    exit=2) verdict="flagged by solver, not confirmed natively (inconclusive)";;
+    exit=1) verdict="caught (VIOLATION x$v, natively confirmed; tier $t)";;
+    exit=2) verdict="flagged, not confirmed natively (inconclusive)";;
     exit=0) verdict="missed"
       for rel in $(python3 -c "import json; print(' '.join(json.load(open('$d/meta.json')).get('related_checks',[])))"); do
         r2=$(tools/run_seeded.sh $rel /verif/$d $tier 2>&1 | grep -o "exit=[0-9]*" | tail -1)
@@ -23,6 +22,12 @@ for d in seeded/C*/m*; do
       done;;
     *) verdict="error $rc";;
   esac
-  echo "| $d | $needs | $verdict |" >> $out
+  echo "| $d | $needs | $verdict |" > $tmp/$key
   echo "$d $rc"
-done
+}
+export -f one
+ls -d seeded/C*/m* | xargs -P $par -I{} bash -c "one {} $tier $tmp"
+out=seeded/RESULTS.md
+{ echo "# Seeded changes vs checks (default tier: $tier)"; echo; echo "| seeded change | needs | check result |"; echo "|---|---|---|"; cat $tmp/* ; } > $out
+rm -rf $tmp
+grep -c "caught" $out; grep -v "caught" $out | tail -n +4
